@@ -668,3 +668,127 @@ def strip_casts(node):
             return n
 
     return T().visit(clone(node))
+
+
+# ----------------------------------------------------------------------------
+# Guard normal form (NNF over canonical literals)
+# ----------------------------------------------------------------------------
+_NEG_OPS = {ast.In: ast.NotIn, ast.NotIn: ast.In, ast.Is: ast.IsNot, ast.IsNot: ast.Is, ast.Eq: ast.NotEq, ast.NotEq: ast.Eq,
+            ast.Lt: ast.GtE, ast.GtE: ast.Lt, ast.Gt: ast.LtE, ast.LtE: ast.Gt}
+_POS_OPS = (ast.In, ast.Is, ast.Eq, ast.Lt, ast.LtE)   # canonical polarity: these are "positive" literals
+
+
+def nnf(test, neg=False, rename=None):
+    """Guard -> nested ('and'|'or', frozenset(children)) | ('lit', polarity, canonical atom).
+    Negations are pushed inward; comparison operators are normalised so that
+    `x not in y` == not `x in y`, `a != b` == not `a == b`, `a >= b` == not `a < b`."""
+    if isinstance(test, ast.UnaryOp) and isinstance(test.op, ast.Not):
+        return nnf(test.operand, not neg, rename)
+    if isinstance(test, ast.BoolOp):
+        is_and = isinstance(test.op, ast.And)
+        if neg:
+            is_and = not is_and
+        kids = frozenset(nnf(v, neg, rename) for v in test.values)
+        flat = set()
+        tag = "and" if is_and else "or"
+        for k in kids:
+            if k[0] == tag:
+                flat |= set(k[1])
+            else:
+                flat.add(k)
+        if len(flat) == 1:
+            return next(iter(flat))
+        return (tag, frozenset(flat))
+    if isinstance(test, ast.Compare) and len(test.ops) == 1:
+        op = type(test.ops[0])
+        l, r = test.left, test.comparators[0]
+        pol = True
+        if op in (ast.Gt, ast.GtE):           # a > b  ->  b < a ; a >= b -> b <= a
+            op = {ast.Gt: ast.Lt, ast.GtE: ast.LtE}[op]
+            l, r = r, l
+        if op not in _POS_OPS:
+            op = _NEG_OPS[op]
+            pol = False
+        if op is ast.LtE:                      # a <= b  ==  not (b < a)
+            op, l, r, pol = ast.Lt, r, l, not pol
+        if neg:
+            pol = not pol
+        name = {ast.In: "in", ast.Is: "is", ast.Eq: "==", ast.Lt: "<"}[op]
+        if name in ("==", "<"):
+            try:
+                from .norm import rat as _rat
+                d = _rat(l) - _rat(r)
+                if name == "==":
+                    c1, c2 = d.canon(), (-d).canon()
+                    return ("lit", pol, "%s == 0" % _rn(min(c1, c2), rename))
+                return ("lit", pol, "%s < 0" % _rn(d.canon(), rename))
+            except Exception:
+                pass
+        a, b = _rn(canon(l), rename), _rn(canon(r), rename)
+        if name == "==":
+            a, b = sorted([a, b])
+        return ("lit", pol, "%s %s %s" % (a, name, b))
+    return ("lit", not neg, _rn(canon(test), rename))
+
+
+def _rn(s, rename):
+    if rename:
+        import re
+        for old, new in rename.items():
+            s = re.sub(r"(?<![\w.])%s(?![\w])" % re.escape(old), new, s)
+    return s
+
+
+def nnf_implies(spec, guard):
+    """spec => guard (whenever spec holds the guard fires), for NNF terms."""
+    if spec == guard:
+        return True
+    if guard[0] == "or":
+        if spec[0] == "or":
+            return all(any(nnf_implies(s, g) for g in guard[1]) for s in spec[1])
+        return any(nnf_implies(spec, g) for g in guard[1])
+    if guard[0] == "and":
+        return all(nnf_implies(spec, g) for g in guard[1])
+    if spec[0] == "and":
+        return any(nnf_implies(s, guard) for s in spec[1])
+    return False
+
+
+def nnf_of_src(src, rename=None):
+    return nnf(ast.parse(src, mode="eval").body, False, rename)
+
+
+def raw_reaching_def(name, stmt):
+    """The unique straight-line `name = value` that reaches ``stmt`` (scanning the
+    enclosing blocks backwards); None if a compound statement in between may rebind it."""
+    cur = stmt
+    while cur is not None and not isinstance(cur, FUNC_TYPES):
+        blk = block_of(cur)
+        if blk:
+            p, f, lst, i = blk
+            for s in reversed(lst[:i]):
+                if isinstance(s, ast.Assign) and len(s.targets) == 1 and isinstance(s.targets[0], ast.Name) and s.targets[0].id == name:
+                    return s.value
+                if name in assigned_names(s):
+                    return None
+            if isinstance(p, (ast.For, ast.AsyncFor)) and name in {x.id for x in ast.walk(p.target) if isinstance(x, ast.Name)}:
+                return None
+        cur = parent(cur)
+    return None
+
+
+def inline_temporaries(expr, stmt, fn, depth=3):
+    """Substitute local single-reaching-definition temporaries (not parameters) into expr, a few levels deep."""
+    params = set(param_names(fn))
+    cur = clone(expr)
+    for _ in range(depth):
+        env = {}
+        for n in ast.walk(cur):
+            if isinstance(n, ast.Name) and isinstance(n.ctx, ast.Load) and n.id not in params and n.id not in env:
+                v = raw_reaching_def(n.id, stmt)
+                if v is not None:
+                    env[n.id] = v
+        if not env:
+            break
+        cur = _Subst(env, False).visit(cur)
+    return cur
